@@ -721,6 +721,13 @@ def llvar(chk, bodies, crates):
         ok = r[0] == "call" and r[1] in INDEX and strip_ref(r[2][1])[0] == "agg" and \
             strip_ref(r[2][1])[1].endswith("RangeFrom::RangeFrom") and strip_ref(r[2][1])[2][0] == ("constparam", "N")
     if not ok and len(rems) == 1:
+        # `let (digits, rest) = data.split_at(N)`: the second half is data[N..]
+        r = strip_ref(rems[0][1])
+        if r[0] == "proj" and tuple(r[2]) == ("1",) and r[1][0] == "call" and r[1][1] == "core::slice::<impl [T]>::split_at" and \
+                len(r[1][2]) == 2 and r[1][2][1] == ("constparam", "N"):
+            src_ = strip_ref(r[1][2][0])
+            ok = src_[0] == "path" and src_[1] == pd.vx.root_name(1) and not src_[2]
+    if not ok and len(rems) == 1:
         # the same thing with a slice iterator: `let mut it = data.iter(); for _ in 0..N { it.next()..; } .. it.as_slice()` -
         # one `next()` on every trip of the one 0..N loop and nowhere else leaves exactly data[N..]
         r = strip_ref(rems[0][1])
